@@ -2,6 +2,7 @@ package c15
 
 import (
 	"encoding/json"
+	"google.golang.org/grpc/codes"
 	"os"
 	"path/filepath"
 	"strconv"
@@ -23,6 +24,10 @@ var cSweep = vt.New("C15", "status-table-sweep")
 
 func sweepOutcomes() []Outcome {
 	out := []Outcome{{Kind: "nil"}, {Kind: "plain"}, {Kind: "plain", Wrap: "fmt"}, {Kind: "permanent"}, {Kind: "permanent", Wrap: "fmt"}}
+	for _, carry := range []string{"first", "whole", "empty"} {
+		out = append(out, Outcome{Kind: "plain", Carry: carry}, Outcome{Kind: "permanent", Carry: carry},
+			Outcome{Kind: "status", Code: uint32(codes.Unavailable), Carry: carry}, Outcome{Kind: "status", Code: uint32(codes.InvalidArgument), Carry: carry})
+	}
 	for _, c := range allCodes {
 		for _, wrap := range []string{"", "permanent"} {
 			out = append(out, Outcome{Kind: "status", Code: uint32(c), Wrap: wrap})
